@@ -421,6 +421,10 @@ func (an *Analysis) createType(typ types.Type, ctx context) Type {
 			str.Comments = fetchStructComments(ctx.rootPackage, name)
 			return str
 		} else {
+			if _, isPointer := typ.Underlying().(*types.Pointer); isPointer {
+				// 'type P *T' is not an [AnonymousType] (and 'type P *P' would recurse for ever)
+				panic("named pointer types are not supported : " + typ.String())
+			}
 			// otherwise, analyze the underlying type
 			under := an.handleType(typ.Underlying(), ctx).(AnonymousType)
 			return &Named{name: name, Underlying: under}
